@@ -1102,6 +1102,20 @@ def _bulk_run(ns, nd, evenly, maxc, rnd, as_float=False, attrs=ATTR_FORMS[0], sh
     w = _RecWorld()
     src = [f"s{i + 1}" for i in range(ns)]
     dst = [f"d{i + 1}" for i in range(nd)]
+    if shape in ("entities", "entities_twin"):
+        # the entity sets hold REAL mosaik Entity objects (what World.start(...).Model.create() returns) instead of strings.
+        # "entities_twin": the destinations come from two simulators whose ids are chosen so that pairs of DISTINCT entities carry the
+        # same full id ('grid' + 'lv.b1' and 'grid.lv' + 'b1') - two destinations are two destinations whatever their ids spell
+        from mosaik.scenario import Entity
+
+        src = [Entity("Src-0", f"s{i + 1}", "Src", None, None) for i in range(ns)]
+        if shape == "entities":
+            dst = [Entity("Dst-0", f"d{i + 1}", "Dst", None, None) for i in range(nd)]
+        else:
+            dst = [Entity("grid", f"lv.b{i // 2 + 1}", "Grid", None, None) if i % 2 == 0 else Entity("grid.lv", f"b{i // 2 + 1}", "Grid", None, None)
+                   for i in range(nd)]
+    sidx = {id(o): i + 1 for i, o in enumerate(src)}
+    didx = {id(o): i + 1 for i, o in enumerate(dst)}
     if shape == "same":
         assert ns == nd
         dst_arg = src
@@ -1122,12 +1136,14 @@ def _bulk_run(ns, nd, evenly, maxc, rnd, as_float=False, attrs=ATTR_FORMS[0], sh
             # a finite limit may be given as a float (2.0, 4/2, the result of a ceil) - the default itself is the float inf
             kw["max_connects"] = float(maxc) if as_float else maxc
         ret = util.connect_randomly(w, src, dst_arg, *attrs, **kw)
-        row.update({"ok": True, "ret": sorted(int(d[1:]) for d in ret)})
+        row.update({"ok": True, "ret": sorted((sidx if shape == "same" else didx)[id(d)] for d in ret)})
+        if len(row["ret"]) != len(list(ret)) or len(set(row["ret"])) != len(row["ret"]):
+            row["ret"] = row["ret"] + [0]  # (cannot happen for a set of distinct objects; an impossible index makes the table say so)
     except BaseException as e:  # noqa: BLE001
         row.update({"ok": False, "ret": [], "exc": f"{type(e).__name__}: {e}"[:100]})
     finally:
         util.random = saved
-    row["calls"] = [[int(s[1:]), int(d[1:])] for s, d, a, k in w.calls]
+    row["calls"] = [[sidx[id(s)], (sidx if shape == "same" else didx)[id(d)]] for s, d, a, k in w.calls]
     row["attrs_ok"] = all(a == tuple(attrs) and not k for s, d, a, k in w.calls)
     return row
 
@@ -1141,7 +1157,7 @@ def c18_exhaustive(max_ns, max_nd):
             for evenly, maxc, as_float in [(True, 0, False), (True, 1, False), (True, 2, False), (False, 0, False), (False, 1, False), (False, 2, False), (False, 3, False), (False, 2, True)]:
                 if not evenly and maxc and ns > nd * maxc:
                     continue
-                for shape in ["lists"] + (["same"] if ns == nd else []) + (["dst_tuple", "dst_gen"] if ns <= 2 else []):
+                for shape in ["lists"] + (["same"] if ns == nd else []) + (["dst_tuple", "dst_gen"] if ns <= 2 else []) + (["entities", "entities_twin"] if ns <= 3 and nd >= 2 else []):
                     stack = [[]]
                     while stack:
                         script = stack.pop()
@@ -1171,7 +1187,7 @@ def c18(tier, seed):
         ns = rng.randint(0, nd * maxc if maxc and not evenly else 100)
         if maxc and rng.random() < 0.3:
             ns = nd * maxc  # exactly filled (D5)
-        shape = rng.choice(["lists", "lists", "dst_tuple", "dst_gen", "dst_keys", "same"])
+        shape = rng.choice(["lists", "lists", "dst_tuple", "dst_gen", "dst_keys", "same", "entities", "entities_twin"])
         if shape == "same":
             ns = nd  # one list object as source and destination set
         r = pyrandom.Random(rng.random())
